@@ -1,6 +1,9 @@
 package gocql
 
-import "context"
+import (
+	"context"
+	"time"
+)
 
 // ---- C05: well-formed frames of a kind not expected at that point of the handshake ----
 //
@@ -49,4 +52,88 @@ func vh_handshake_frames() {
 	err := s.startup(context.Background(), map[string][]string{})
 	vAssert(len(vWrites) >= 1, "C05/handshake/startup-is-sent")
 	vObserve("err", err != nil)
+}
+
+// ---- heartbeats: any well-formed frame in reply to OPTIONS ----
+//
+// Conn.heartBeat and controlConn.heartBeat send OPTIONS periodically from their own goroutines. The reply
+// is scripted to be any kind of frame; the loops must carry on, reconnect or close - never panic.
+
+var (
+	vHBCtx   *vCtx
+	vHBCalls int
+	vHBSteps int
+	vHBReconnects int
+)
+
+func vHBFrameBody() (frameOp, []byte) {
+	switch vChoose("reply_kind", 6) {
+	case 0:
+		return opSupported, []byte{0, 0} // SUPPORTED with an empty multimap
+	case 1:
+		return opReady, nil
+	case 2:
+		return opError, refCat(vWInt(0x1001), vWStr("overloaded"))
+	case 3:
+		return opResult, vWInt(1) // RESULT void
+	case 4:
+		return opAuthenticate, vWStr("a.B")
+	}
+	return opAuthSuccess, vWInt(-1)
+}
+
+// the heartbeat timer fires again after Reset as long as scripted replies remain
+func vstubTimerResetHB(t *time.Timer, d time.Duration) bool {
+	if vHBCalls < vHBSteps && len(vTimerC) == 0 {
+		vTimerC <- time.Time{}
+	}
+	return true
+}
+
+func vstubHeartbeatExec(c *Conn, ctx context.Context, req frameBuilder, tracer Tracer) (*framer, error) {
+	vHBCalls++
+	if vHBCalls >= vHBSteps && vHBCtx != nil && vHBCtx.err == nil {
+		close(vHBCtx.done) // the connection's context ends after the scripted replies
+		vHBCtx.err = context.Canceled
+	}
+	if vBool("exec_fails") {
+		return nil, vErrIO
+	}
+	op, body := vHBFrameBody()
+	return vFramerWith(c, op, body), nil
+}
+
+func vh_heartbeat_frames() {
+	c := vNewConn()
+	vHBCtx = &vCtx{done: make(chan struct{})}
+	vHBCalls, vHBSteps = 0, vBound("steps")
+	c.heartBeat(vHBCtx)
+	vAssert(vHBCalls <= vHBSteps+6, "C05/heartbeat/loop-ends-with-the-connection")
+	vObserve("calls", vHBCalls)
+}
+
+func vstubControlWriteFrame(c *controlConn, w frameBuilder) (frame, error) {
+	vHBCalls++
+	if vHBCalls >= vHBSteps {
+		select {
+		case <-c.quit:
+		default:
+			close(c.quit)
+		}
+	}
+	if vBool("write_fails") {
+		return nil, vErrIO
+	}
+	op, body := vHBFrameBody()
+	f := vFramerWith(&Conn{version: 4}, op, body)
+	return f.parseFrame()
+}
+func vstubControlReconnect(c *controlConn) { vHBReconnects++ }
+
+func vh_control_heartbeat_frames() {
+	cc := &controlConn{session: &Session{logger: vNopLogger{}}, quit: make(chan struct{})}
+	vHBCalls, vHBSteps, vHBReconnects = 0, vBound("steps"), 0
+	cc.heartBeat()
+	vAssert(vHBCalls <= vHBSteps, "C05/control-heartbeat/loop-ends-on-quit")
+	vObserve("calls", vHBCalls)
 }
